@@ -93,6 +93,7 @@ def BitBuf.take (e : Endian) (bb : BitBuf) (bits : Nat) : Option (Int × BitBuf)
     code would go on with a negative `_remaining`, which no laid-out structure can reach (layout rejects straddles). -/
 def BitBuf.put (e : Endian) (bb : BitBuf) (size : Nat) (data : Int) (bits : Nat) : Option BitBuf :=
   if bits > bb.remaining then none else
+  if data < 0 ∨ data ≥ shl 1 bits then none else      -- `if not 0 <= data < (1 << bits): raise ValueError`
   let buffer := match e with
     | .little => lor bb.buffer (shl data (size * 8 - bb.remaining))
     | .big => lor bb.buffer (shl data (bb.remaining - bits))
